@@ -1195,16 +1195,30 @@ func (fr *Frame) collectInvariants(li *loopInfo) {
 		if iff, ok := h.Instrs[len(h.Instrs)-1].(*ssa.If); ok && kc.Int64() == 1 {
 			if cmp, ok := iff.Cond.(*ssa.BinOp); ok && cmp.Op == token.LSS && li.body[h.Succs[0]] && !li.body[h.Succs[1]] {
 				bound := cmp.Y
+				// `i < len(s)` with s defined outside the loop: len(s) is loop invariant although go/ssa
+				// recomputes it in the header
+				var boundTerm func() string
 				if fr.definedOutside(bound, li) {
+					b0 := bound
+					boundTerm = func() string { return fr.val(b0)[0] }
+				} else if lc, ok := bound.(*ssa.Call); ok {
+					if bi, ok := lc.Common().Value.(*ssa.Builtin); ok && bi.Name() == "len" && fr.definedOutside(lc.Common().Args[0], li) {
+						if _, isSlice := lc.Common().Args[0].Type().Underlying().(*types.Slice); isSlice {
+							a0 := lc.Common().Args[0]
+							boundTerm = func() string { return fr.val(a0)[2] }
+						}
+					}
+				}
+				if boundTerm != nil {
 					if cmp.X == ssa.Value(phi) {
 						li.invs = append(li.invs, invItem{text: fmt.Sprintf("auto: %s <= max(bound, entry)", phi.Comment), eval: func(fr *Frame, st *State, pm map[ssa.Value][]string) (string, error) {
 							x := pm[phi][0]
-							return sOr(app("<=", x, fr.val(bound)[0]), app("<=", x, fr.val(ev)[0])), nil
+							return sOr(app("<=", x, boundTerm()), app("<=", x, fr.val(ev)[0])), nil
 						}})
 					} else if cmp.X == ssa.Value(bo) && bo.Block() == h {
 						li.invs = append(li.invs, invItem{text: fmt.Sprintf("auto: %s+1 <= max(bound, entry+1)", phi.Comment), eval: func(fr *Frame, st *State, pm map[ssa.Value][]string) (string, error) {
 							x := app("+", pm[phi][0], "1")
-							return sOr(app("<=", x, fr.val(bound)[0]), app("<=", x, app("+", fr.val(ev)[0], "1"))), nil
+							return sOr(app("<=", x, boundTerm()), app("<=", x, app("+", fr.val(ev)[0], "1"))), nil
 						}})
 					}
 				}
